@@ -12,9 +12,12 @@
 (*             reproduces the defect repaired in Add / Sub / Mul<f32>.     *)
 (*   Enclosure (C03): the carried point stays inside the carried interval  *)
 (*             unless the interval is the NaN interval or the point is NaN.*)
+(*             GuardedInf = FALSE reproduces the defect repaired in sin /  *)
+(*             cos / rem_euclid (overflow, wave, times [0,0], not).        *)
 (***************************************************************************)
 EXTENDS Integers, Sequences, FiniteSets, TLC
-CONSTANTS M, MaxDepth, GuardedProducts, Guarded     \* Guarded = TRUE: Add/Sub/Mul-by-imm return the NaN interval when a bound is NaN
+CONSTANTS M, MaxDepth, GuardedProducts, Guarded,    \* Guarded = TRUE: Add/Sub/Mul-by-imm return the NaN interval when a bound is NaN
+          GuardedInf                                \* TRUE: bounded-range ops (sin, cos, mod) return the NaN interval for an infinite bound
 
 INF == 100  NINF == -100  NAN == 999
 Fin == -M..M
@@ -95,14 +98,18 @@ POr(x, y) == IF ~IsNan(x) /\ x # 0 THEN x ELSE IF IsNan(x) THEN x ELSE y
 PMin(x, y) == IF IsNan(x) \/ IsNan(y) THEN NAN ELSE IF x < y THEN x ELSE y
 PMax(x, y) == IF IsNan(x) \/ IsNan(y) THEN NAN ELSE IF x > y THEN x ELSE y
 
-Ops1 == {"neg", "abs", "square", "mulimm2", "mulimmINF", "recip", "not"}
+(* "wave" stands for the operators with a bounded range whose point value is NaN at +-INF (sin, cos, x mod 2): *)
+(* before the repair 28471dc their interval ignored an infinite bound                                            *)
+PWave(x) == IF IsNan(x) \/ IsInf(x) THEN NAN ELSE x % 2
+IWave(a) == IF HasNan(a) \/ (GuardedInf /\ (IsInf(a[1]) \/ IsInf(a[2]))) THEN NanIv ELSE <<0, 1>>
+Ops1 == {"neg", "abs", "square", "mulimm2", "mulimmINF", "recip", "not", "wave"}
 Ops2 == {"add", "sub", "mul", "min", "max", "div", "compare", "and", "or"}
 IOp1(o, a) == CASE o = "neg" -> INeg(a) [] o = "abs" -> IAbs(a) [] o = "square" -> ISquare(a)
                 [] o = "mulimm2" -> IMulImm(a, -2) [] o = "mulimmINF" -> IMulImm(a, INF)
-                [] o = "recip" -> IRecip(a) [] o = "not" -> INot(a)
+                [] o = "recip" -> IRecip(a) [] o = "not" -> INot(a) [] o = "wave" -> IWave(a)
 POp1(o, x) == CASE o = "neg" -> FNeg(x) [] o = "abs" -> FAbs(x) [] o = "square" -> FMul(x, x)
                 [] o = "mulimm2" -> FMul(x, -2) [] o = "mulimmINF" -> FMul(x, INF)
-                [] o = "recip" -> FDiv(1, x) [] o = "not" -> PNot(x)
+                [] o = "recip" -> FDiv(1, x) [] o = "not" -> PNot(x) [] o = "wave" -> PWave(x)
 IOp2(o, a, b) == CASE o = "add" -> IAdd(a, b) [] o = "sub" -> ISub(a, b) [] o = "mul" -> IMul(a, b)
                    [] o = "min" -> IMin(a, b) [] o = "max" -> IMax(a, b)
                    [] o = "div" -> IDiv(a, b) [] o = "compare" -> ICompare(a, b)
